@@ -272,6 +272,7 @@ fn run_case(opts: &str, text: &str) -> String {
         mem.set_stdin(Box::new(rx));
     }
     crate::native::eval::verif_evaluator_errors(true);
+    crate::native::eval::verif_nil_body_calls(true);
     let mut high = None;
     if o.attach || !o.umbilical.is_empty() || !o.delayed.is_empty() {
         let (h, l) = crate::debug::make_umbilical();
@@ -335,6 +336,7 @@ fn run_case(opts: &str, text: &str) -> String {
 
     let polls = crate::native::eval::verif_polls();
     let everr = crate::native::eval::verif_evaluator_errors(true);
+    let nilbody = crate::native::eval::verif_nil_body_calls(true);
     crate::native::eval::verif_clear_injections();
     let mut sent = vec![];
     if let Some(h) = &high {
@@ -356,10 +358,10 @@ fn run_case(opts: &str, text: &str) -> String {
     let rc_sum: usize = snap.cells.iter().map(|c| c.rc).sum();
     let ndefs: usize  = snap.modules.iter().map(|(_, d, _)| d.len()).sum();
     let outs = String::from_utf8_lossy(&out.0.borrow()).to_string();
-    format!("{} | out {} | allocs {} colls {} polls {} reads {} rcsum {} defs {} current {} mon {} everr {} | sent {}",
+    format!("{} | out {} | allocs {} colls {} polls {} reads {} rcsum {} defs {} current {} mon {} everr {} nilbody {} | sent {}",
             if results.is_empty() {"none".to_string()} else {results.join(" ; ")},
             enc(&outs), allocs, colls, polls, *reads.borrow(), rc_sum, ndefs, enc(&snap.current),
-            monf.map(|m| enc(&m)).unwrap_or("ok".to_string()), everr,
+            monf.map(|m| enc(&m)).unwrap_or("ok".to_string()), everr, nilbody,
             if sent.is_empty() {"-".to_string()} else {sent.join(" ")})
 }
 
